@@ -164,6 +164,10 @@ func verifyPageReachable(p *common.Page, hwm common.Pgid, stack []common.Pgid, r
 			ch <- fmt.Errorf("page %d: multiple references (stack: %v)", int(id), stack)
 		}
 		reachable[id] = p
+		// An overflow page of a reachable run must not be listed as free either.
+		if i > 0 && freed[id] {
+			ch <- fmt.Errorf("page %d: reachable freed", int(id))
+		}
 	}
 
 	// We should only encounter un-freed leaf and branch pages.
